@@ -8,11 +8,11 @@ CONSTANTS
  Defect = "none"
  Honest = {1, 2}
  Args <- ArgsTwoFr
- ByzPosts <- Byz3
- MaxByz = 1
- Faults <- FApi
- MaxFault = 1
- Tampers <- TAll
+ ByzPosts <- ByzNone
+ MaxByz = 0
+ Faults <- FNone
+ MaxFault = 0
+ Tampers <- TGroups
  MaxTamper = 1
  Plants <- PNone
  MaxPlant = 0
@@ -23,7 +23,7 @@ CONSTANTS
  NodeWatch = TRUE
  MaxNode = 1
  Policy = "free"
-INVARIANTS Safety ViewNewest TimerSane
-PROPERTIES MCFetchWritesGood MCFileStable MCNodeKeeps MCSignJoins
+INVARIANTS Safety ViewNewestButD1 TimerSane
+PROPERTIES MCFetchWritesGoodButD1 MCFileStable MCNodeKeeps MCSignJoins
 VIEW View
 CHECK_DEADLOCK FALSE
